@@ -156,14 +156,23 @@ package service
 //@ func (*streamHandler).handleConnection
 //@   props C01 C05 C06 C15 C18
 //@   requires validStreamHandler(h) && ctx != nil && outerConn != nil && connMetrics != nil && proxyMetrics != nil
+//@   trace[C05,no-direct-dial] never transport.StreamDialer.DialStream
+//@   trace[C01,no-target-without-authentication] never service.proxyConnection when evres("service.streamHandler.authenticate", 2) != nil
+//@   trace[C01,nothing-written-without-authentication] never transport.StreamConn.Write when evres("service.streamHandler.authenticate", 2) != nil
 
+// The dialer handed to proxyConnection: the only place a target is dialed, through the
+// handler's (validating) dialer, to the address read from the client.
 //@ func (*streamHandler).handleConnection$1
-//@   props C05 C18
+//@   props C05 C15 C18
 //@   requires h != nil && h.dialer != nil && proxyMetrics != nil
+//@   trace[C05,dials-through-handler-dialer] each transport.StreamDialer.DialStream satisfies $recv == h.dialer
+//@   trace[C05,one-dial] atmost 1 transport.StreamDialer.DialStream
 
 //@ func proxyConnection
-//@   props C02 C15 C18
+//@   props C02 C05 C15 C18
 //@   requires l != nil && ctx != nil && dialer != nil && clientConn != nil
+//@   trace[C05,dials-only-through-given-dialer] each transport.StreamDialer.DialStream satisfies $recv == dialer
+//@   trace[C05,one-dial] exactly 1 transport.StreamDialer.DialStream
 
 //@ func proxyConnection$1
 //@   props C02 C18
@@ -256,12 +265,23 @@ package service
 
 //@ func NewPacketHandler
 //@   props C05 C18
+//@   ensures[C05,default-policy-installed] as(result, "*service.packetHandler").targetIPValidator == funcref("net.RequirePublicIP")
 
+// The destination validator installed in a packet handler (a function value).
+//@ func packetHandler.targetIPValidator
+//@   abstract
+//@   params ip
+
+// validatePacket succeeds only if the installed validator accepted exactly the IP of the
+// address it returns; the payload is the part of the plaintext after the address header.
 //@ func (*packetHandler).validatePacket
 //@   props C03 C05 C18
 //@   requires validPacketHandler(h)
 //@   ensures result.2 == nil ==> result.1 != nil
-//@   ensures result.2 == nil ==> result.0.$arr == textData.$arr && len(result.0) <= len(textData)
+//@   ensures[C03,payload-after-header] result.2 == nil ==> result.0.$arr == textData.$arr && len(result.0) <= len(textData) \
+//@       && result.0.$off + len(result.0) == textData.$off + len(textData)
+//@   trace[C05,validated-when-accepted] exactly 1 service.packetHandler.targetIPValidator when result.2 == nil
+//@   trace[C05,validator-verdict-respected] each service.packetHandler.targetIPValidator satisfies result.2 == nil ==> $res0 == nil && sameslice($arg0, result.1.IP)
 
 //@ func isDNS
 //@   props C14 C18
@@ -331,6 +351,15 @@ package service
 //@   requires 0 <= clientProxyBytes && clientProxyBytes <= len(cipherBuf) && targetConn == nil && proxyTargetBytes == 0
 //@   requires err == nil ==> clientAddr != nil && typeis(clientAddr, "*net.UDPAddr") && as(clientAddr, "*net.UDPAddr") != nil
 //@   ensures targetConn != nil ==> validNatconn(targetConn)
+//@   trace[C05,every-datagram-validated] before service.(*packetHandler).validatePacket service.(*natconn).WriteTo
+//@   trace[C05,one-validation-per-datagram] atmost 1 service.(*packetHandler).validatePacket
+//@   trace[C05,sent-to-validated-address] each service.(*natconn).WriteTo satisfies evres("service.(*packetHandler).validatePacket", 2) == nil && $arg2 != nil && as($arg2, "*net.UDPAddr") == evres("service.(*packetHandler).validatePacket", 1)
+//@   trace[C03,payload-from-validation] each service.(*natconn).WriteTo satisfies sameslice($arg1, evres("service.(*packetHandler).validatePacket", 0))
+//@   trace[C03,no-traffic-without-key] never service.(*natconn).WriteTo when result != nil && result.Status == "ERR_CIPHER"
+//@   trace[C03,no-association-without-key] never service.(*natmap).Add when result != nil && result.Status == "ERR_CIPHER"
+//@   trace[C03,no-socket-without-key] never net.ListenPacket when result != nil && result.Status == "ERR_CIPHER"
+//@   trace[C04,association-only-after-validation] before service.(*packetHandler).validatePacket service.(*natmap).Add
+//@   trace[C04,socket-only-after-validation] before service.(*packetHandler).validatePacket net.ListenPacket
 
 //@ func timedCopy
 //@   props C03 C14 C16 C18
@@ -514,3 +543,34 @@ package service
 //@ func (*ssService).HandlePacket
 //@   props C18
 //@   requires s != nil && s.ph != nil
+
+// ---------------------------------------------------------------------------
+// Default destination policy wiring (C05)
+// ---------------------------------------------------------------------------
+
+//@ func makeValidatingTCPStreamDialer$1.targetIPValidator
+//@   abstract
+//@   params ip
+
+// The Control hook of the TCP dialer: the connection attempt proceeds (nil) only with the
+// validator's consent for the IP literal being connected to.
+//@ func makeValidatingTCPStreamDialer$1
+//@   props C05 C18
+//@   requires targetIPValidator != nil
+//@   trace[C05,validator-consulted] exactly 1 service.makeValidatingTCPStreamDialer$1.targetIPValidator
+//@   trace[C05,verdict-returned] each service.makeValidatingTCPStreamDialer$1.targetIPValidator satisfies result == $res0
+//@   trace[C05,validates-dialed-address] each net.SplitHostPort satisfies $arg0 == address
+
+//@ func makeValidatingTCPStreamDialer
+//@   props C05 C18
+//@   ensures result != nil
+
+//@ func NewStreamHandler
+//@   props C05 C18
+//@   ensures[C05,default-dialer-installed] as(result, "*service.streamHandler").dialer == defaultDialer && as(result, "*service.streamHandler").authenticate == authenticate
+
+// package initialiser: the default TCP dialer validates with RequirePublicIP
+//@ func init
+//@   props C05
+//@   trace[C05,default-dialer-uses-public-ip-policy] each service.makeValidatingTCPStreamDialer satisfies $arg0 == funcref("net.RequirePublicIP")
+//@   trace[C05,default-dialer-built-once] exactly 1 service.makeValidatingTCPStreamDialer
